@@ -5,8 +5,9 @@
 //! operation with a raw `syscall` and consults *plans* kept in atomics (no allocation, no locks,
 //! no TLS in here; thread identity by `gettid`).  Plans are part of the generated case.
 //!
-//! Under the `asan` feature only the send side and `getsockopt` are interposed, so that
-//! AddressSanitizer's own `recv`/`recvmsg` interceptors stay active.
+//! Under the `asan` feature the send side and `getsockopt` are interposed as usual, while the
+//! `recv`/`recvmsg` wrappers call AddressSanitizer's own interceptors (which keep checking the
+//! buffers) and only add the masking of the kernel's end-of-file race.
 #![allow(clippy::missing_safety_doc)]
 
 use libc::{c_int, c_void, size_t, socklen_t, ssize_t};
@@ -446,6 +447,69 @@ pub unsafe extern "C" fn send(fd: c_int, buf: *const c_void, len: size_t, flags:
     r
 }
 
+/// Environment anomaly of this sandbox's kernel (reproduced with a 60-line C program, no
+/// ipc-channel involved): `recv`/`recvmsg` on an AF_UNIX SOCK_SEQPACKET socket can return 0
+/// (end-of-file) although packets that the peer sent *before* closing are still queued - the
+/// emptiness check and the shutdown check of the kernel's receive path are not atomic, and a
+/// receiver preempted between them sees "empty" and then "shut down".  After end-of-file no new
+/// data can be queued, so data found by an immediate non-blocking peek proves the anomaly.
+/// The wrapper then simply re-issues the call: the library under test (changed or not) sees
+/// only what a correct kernel would have answered.
+unsafe fn eof_race_data_pending(fd: c_int) -> bool {
+    let mut b = 0u8;
+    let r = libc::syscall(libc::SYS_recvfrom, fd, &mut b as *mut u8, 1usize, libc::MSG_PEEK | libc::MSG_DONTWAIT | libc::MSG_TRUNC, 0usize, 0usize) as ssize_t;
+    if r > 0 {
+        N_KERNEL_EOF_RACE.fetch_add(1, SeqCst);
+        true
+    } else {
+        false
+    }
+}
+
+
+/// ASan build: AddressSanitizer's own `recv`/`recvmsg` interceptors must keep checking the buffers
+/// the transport hands to the kernel, so these wrappers call the interceptors (not the raw system
+/// call) and only add the masking of the kernel's end-of-file race.
+#[cfg(feature = "asan")]
+pub mod asan_recv {
+    use super::*;
+    extern "C" {
+        fn __interceptor_recvmsg(fd: c_int, msg: *mut libc::msghdr, flags: c_int) -> ssize_t;
+        fn __interceptor_recv(fd: c_int, buf: *mut c_void, len: size_t, flags: c_int) -> ssize_t;
+    }
+
+    /// The sanitizer runtime already provides weak `recv`/`recvmsg`, so no undefined reference
+    /// would ever pull this object out of the harness rlib: `main` references this anchor, the
+    /// object comes along, and its strong definitions win over the weak ones.
+    #[inline(never)]
+    pub fn anchor() -> usize {
+        (recvmsg as *const () as usize) ^ (recv as *const () as usize)
+    }
+
+    #[no_mangle]
+    pub unsafe extern "C" fn recvmsg(fd: c_int, msg: *mut libc::msghdr, flags: c_int) -> ssize_t {
+        let offered = iov_total(msg);
+        let (ctl_len, name_len) = if msg.is_null() { (0, 0) } else { ((*msg).msg_controllen, (*msg).msg_namelen) };
+        let mut r = __interceptor_recvmsg(fd, msg, flags);
+        if r == 0 && offered > 0 && flags & libc::MSG_PEEK == 0 && eof_race_data_pending(fd) {
+            (*msg).msg_controllen = ctl_len;
+            (*msg).msg_namelen = name_len;
+            (*msg).msg_flags = 0;
+            r = __interceptor_recvmsg(fd, msg, flags);
+        }
+        r
+    }
+
+    #[no_mangle]
+    pub unsafe extern "C" fn recv(fd: c_int, buf: *mut c_void, len: size_t, flags: c_int) -> ssize_t {
+        let mut r = __interceptor_recv(fd, buf, len, flags);
+        if r == 0 && len > 0 && flags & libc::MSG_PEEK == 0 && eof_race_data_pending(fd) {
+            r = __interceptor_recv(fd, buf, len, flags);
+        }
+        r
+    }
+}
+
 #[cfg(not(feature = "asan"))]
 mod full {
     use super::*;
@@ -495,25 +559,6 @@ mod full {
         }
         log_event(tid, EV_CLOSE, fd, 0, r == 0, 0, false);
         r
-    }
-
-    /// Environment anomaly of this sandbox's kernel (reproduced with a 60-line C program, no
-    /// ipc-channel involved): `recv`/`recvmsg` on an AF_UNIX SOCK_SEQPACKET socket can return 0
-    /// (end-of-file) although packets that the peer sent *before* closing are still queued - the
-    /// emptiness check and the shutdown check of the kernel's receive path are not atomic, and a
-    /// receiver preempted between them sees "empty" and then "shut down".  After end-of-file no new
-    /// data can be queued, so data found by an immediate non-blocking peek proves the anomaly.
-    /// The wrapper then simply re-issues the call: the library under test (changed or not) sees
-    /// only what a correct kernel would have answered.
-    unsafe fn eof_race_data_pending(fd: c_int) -> bool {
-        let mut b = 0u8;
-        let r = libc::syscall(libc::SYS_recvfrom, fd, &mut b as *mut u8, 1usize, libc::MSG_PEEK | libc::MSG_DONTWAIT | libc::MSG_TRUNC, 0usize, 0usize) as ssize_t;
-        if r > 0 {
-            N_KERNEL_EOF_RACE.fetch_add(1, SeqCst);
-            true
-        } else {
-            false
-        }
     }
 
     #[no_mangle]
